@@ -113,6 +113,44 @@ def discharge(F, site):
     return None
 
 
+def _module_key(key):
+    """'fn=<module path>::<fn>;rest' -> 'mod=<module path>;rest': a hand-proved argument stays valid when the expression is moved into a
+    helper of the same module (extract-method refactorings); closures and impl blocks belong to their module"""
+    if not key.startswith('fn='):
+        return key
+    head, _, rest = key.partition(';')
+    path = head[3:]
+    import re as _re
+    path = _re.sub(r'::\{closure#\d+\}', '', path)
+    while '::<impl ' in path:
+        a = path.index('::<impl ')
+        depth, j = 0, a + 2
+        while j < len(path):
+            if path[j] == '<':
+                depth += 1
+            elif path[j] == '>':
+                depth -= 1
+                if depth == 0:
+                    break
+            j += 1
+        path = path[:a] + path[j + 1:]
+    path = _re.sub(r"::<'[a-z_]+>", '', path)
+    segs = path.split('::')
+    # drop the function name (and a type name in `Type::method`)
+    mod = '::'.join(s_ for s_ in segs[:-1] if s_ and not s_[0].isupper())
+    return 'mod=%s;%s' % (mod, rest)
+
+
+def _table_get(table, key):
+    if key in table:
+        return table[key]
+    mk = _module_key(key)
+    for k, v in table.items():
+        if _module_key(k) == mk:
+            return v
+    return None
+
+
 def _helper_position(F, roots, POS, depth):
     """the value comes from a local function whose returned value is itself a search / match / length position (followed two levels)"""
     if depth > 2:
@@ -220,9 +258,9 @@ def run(F, tier, res):
         if why:
             ok3 += 1
             samples.append('%s: %s' % (key, why))
-        elif key in table:
+        elif _table_get(table, key) is not None:
             ok3 += 1
-            samples.append('%s: hand-proved: %s' % (key, table[key]))
+            samples.append('%s: hand-proved: %s' % (key, _table_get(table, key)))
         else:
             res.violate('P3', key, 'an unsigned subtraction on the input path is not guarded by a comparison of its operands (overflow checks are on in debug builds; '
                         'in release it wraps to a huge value that is then used as a width / index)', where=s['where'])
@@ -348,9 +386,9 @@ def run(F, tier, res):
                     why = 'bounds are search/match positions, lengths, guarded constants, or compared with len()'
             if why:
                 ok5 += 1
-            elif key in table5:
+            elif _table_get(table5, key) is not None:
                 ok5 += 1
-                samples5.append('%s: hand-proved: %s' % (key, table5[key]))
+                samples5.append('%s: hand-proved: %s' % (key, _table_get(table5, key)))
             else:
                 res.violate('P5', key, 'a string is sliced at a computed position that is neither a search/match position nor compared with the string\'s length: '
                             'an out-of-range (or non-boundary) index panics', where=F.span_of_call(c))
@@ -460,8 +498,8 @@ def run(F, tier, res):
             if why:
                 ok6 += 1
                 samples6.append('%s: %s' % (key, why))
-            elif key in table6:
-                ent = table6[key]
+            elif _table_get(table6, key) is not None:
+                ent = _table_get(table6, key)
                 if isinstance(ent, dict) and ent.get('requires_guard'):
                     suf = ent['requires_guard']
 
